@@ -21,7 +21,8 @@ def run_scan(ctx, nmax):
   from brax import base, scan
   cfg = os.path.join(tlc.WORK, 'c05-scan.cfg')
   os.makedirs(tlc.WORK, exist_ok=True)
-  tlc.write_cfg(cfg, constants={'N': nmax},
+  from harness import core
+  tlc.write_cfg(cfg, constants={'N': nmax, 'NBig': 300 if nmax <= 4 else 5000, 'BigLinks': 8, 'SeedBase': core.seed_base(ctx, 55)},
                 invariants=['GroupedEqualsNaiveDown', 'GroupedEqualsNaiveUp', 'TypesScanInLinkOrder', 'OrderIsPermutation'])
   dump = os.path.join(tlc.WORK, 'c05-scan')
   res = tlc.run('Scan', cfg, name='c05-scan', dump=dump, expect_ok=True, coverage=True)
